@@ -621,7 +621,7 @@ class C05(Prop):
                    "C locals of efuns that are live across a longjmp: inventoried by the translator (41 call-back sites, 4 with an error-handler slot), observed via ASan on 9 efuns, not proved",
                    "value-stack depths inside efuns are approximated (only the depth after recovery is observed)",
                    "'names of the vital objects after = before' is an oracle clause and compared on every trace; proved at state level (restoreContext_runs_fixNames), not through the induction over all programs",
-                   "the simul_efun branch of destruct_object's vital block (refused from LPC while a master exists); a compile error in the master file as the failing reload",
+                   "the simul_efun branch of destruct_object's vital block (refused from LPC while a master exists)",
                    "call-back sites not driven: f_objects, object_present, fixed master applies (valid_read / valid_seteuid / creator_file run but have no generated body), print_prompt, snoop, logon, ed, parse_command, virtual objects",
                    "preload_objects, console-mode resume, do_slow_shutdown recovery points; varargs callees; get_char"]
 
@@ -995,6 +995,10 @@ class C05(Prop):
         self.conf = E.make_mudlib(ctx.rundir, master="/c05/master.c")
 
     def run_impl(self, ctx, cases):
+        # a case that broke the master FILE on purpose and then crashed (changed driver) must not poison the next harness start
+        good = os.path.join(ctx.rundir, "mudlib/c05/master.good")
+        if os.path.exists(good):
+            os.replace(good, os.path.join(ctx.rundir, "mudlib/c05/master.c"))
         return E.run_harness(self.exe, self.conf, cases, ctx.rundir)
 
     def shrink_ok(self, lines):
@@ -1124,6 +1128,19 @@ class C05(Prop):
                                     ("(catch %s) (saycatch)" % o) if outer else o,
                                     prep='if (p0 = find_object ("/c05/gen/VN")) destruct (p0); load_object ("/c05/gen/VN");',
                                     extra_files={"VN": vobj % expr}))
+        # … and the master FILE does not compile any more (the compiler's log_error safe apply runs in the old master, whose
+        # name is blank at that moment); prep() of the next evaluation puts the good file back
+        fix_file = ('if (file_size ("/c05/master.good") > 0) { rm ("/c05/master.c"); rename ("/c05/master.good", "/c05/master.c"); }')
+        brk = ('rename ("/c05/master.c", "/c05/master.good"); write_file ("/c05/master.c", "void create () { int x = ; }\\n"); ')
+        for outer in (False, True):
+            o = "(tmp 1 (vital master (load (safe 2 0 (say compile-error)) (craise *Error in loading object '/c05/master':))))"
+            # (rename / write_file ask the master's valid_write: applies made by efuns, LPC instructions of the master run)
+            pre = "(tmp 2 (cb other master 3 3)) (tmp 2 (cb other master 3 3)) "
+            B.append(fixed_case("b-vital-master-compile-error%s" % ("-caught" if outer else ""),
+                                brk + ((CATCHSTMT % "destruct (master ())") if outer else "destruct (master ());"),
+                                pre + (("(catch %s) (saycatch)" % o) if outer else o), prep=fix_file,
+                                # (the scratch mudlib is shared by the cases of a run: put the good file back at the end)
+                                tail=["vapply t prep"]))
         for name, stmt, bops in (("say", 'VL ("say x");', "(say x)"), ("raise", 'error ("boom1\\n");', "(raise boom1)"),
                                  ("throw", 'throw ("t1");', "(throw t1)"),
                                  ("caught-inside", CATCHSTMT % "f1 ()", "(catch (call local t 0 0 (raise boom2))) (saycatch)")):
